@@ -249,6 +249,7 @@ Fixpoint comp_loop {A M} (fuel : nat) (rt : dec (N * list N)) (d : N -> dec A)
   end.
 
 (* Decoder.unmarshal for a destination of kind Interface holding nil *)
+(* the body is the text tools/gotrans/c03.go generates from Decoder.unmarshal (Gen/C03gen.v gen_any), cases in source order *)
 Fixpoint dany (fuel : nat) (dep : N) (id : N) : dec aval :=
   match fuel with
   | O => NoFuel
@@ -257,30 +258,15 @@ Fixpoint dany (fuel : nat) (dep : N) (id : N) : dec aval :=
       else if id =? idByte then v <- rd_i8 ;; Ret (AByte v)
       else if id =? idShort then v <- rd_i16 ;; Ret (AShort v)
       else if id =? idInt then v <- rd_i32 ;; Ret (AInt v)
+      else if id =? idFloat then v <- rd_i32 ;; Ret (AFloat (u32 v))
       else if id =? idLong then v <- rd_i64 ;; Ret (ALong v)
-      else if id =? idFloat then v <- rd_i32 ;; Ret (AFloat (u32 v))     (* Float32frombits(uint32(v)) *)
       else if id =? idDouble then v <- rd_i64 ;; Ret (ADouble (u64 v))
-      else if id =? idByteArray then
-        n <- rd_i32 ;;
-        if (n <? 0)%Z then Fail eNeg
-        else ReadFull (Z.to_N n) (fun bs => Ret (ABytes bs))             (* make + io.ReadFull *)
       else if id =? idString then s <- rd_string ;; Ret (AString s)
-      else if id =? idList then
-        if dep =? 0 then Fail eDepth else
-        et <- rd_u8 ;; n <- rd_i32 ;;
-        if (n <? 0)%Z then Fail eNeg
-        else l <- rep f (Z.to_N n) (dany f (dep - 1) et) [] ;; Ret (AList l)
-      else if id =? idCompound then
-        if dep =? 0 then Fail eDepth else
-        m <- comp_loop f rd_tag (dany f (dep - 1)) (fun k v m => map_set k v m) [] ;; Ret (AMap m)
-      else if id =? idIntArray then
-        n <- rd_i32 ;;
-        if (n <? 0)%Z then Fail eNeg                                     (* since fix df91649 *)
-        else l <- rep f (Z.to_N n) rd_i32 [] ;; Ret (AInts l)
-      else if id =? idLongArray then
-        n <- rd_i32 ;;
-        if (n <? 0)%Z then Fail eNeg
-        else l <- rep f (Z.to_N n) rd_i64 [] ;; Ret (ALongs l)
+      else if id =? idByteArray then n <- rd_i32 ;; if (n <? 0)%Z then Fail eNeg else ReadFull (Z.to_N n) (fun bs => Ret (ABytes bs))
+      else if id =? idIntArray then n <- rd_i32 ;; if (n <? 0)%Z then Fail eNeg else l <- rep f (Z.to_N n) rd_i32 [] ;; Ret (AInts l)
+      else if id =? idLongArray then n <- rd_i32 ;; if (n <? 0)%Z then Fail eNeg else l <- rep f (Z.to_N n) rd_i64 [] ;; Ret (ALongs l)
+      else if id =? idList then if dep =? 0 then Fail eDepth else et <- rd_u8 ;; n <- rd_i32 ;; if (n <? 0)%Z then Fail eNeg else l <- rep f (Z.to_N n) (dany f (dep - 1) et) [] ;; Ret (AList l)
+      else if id =? idCompound then if dep =? 0 then Fail eDepth else m <- comp_loop f rd_tag (dany f (dep - 1)) (fun k v m => map_set k v m) [] ;; Ret (AMap m)
       else Fail eUnknown
   end.
 
@@ -526,6 +512,7 @@ Definition widen32 (b : N) : N :=
     else let k := N.log2 m in s * 2^63 + (k + 874) * 2^52 + (m - 2^k) * 2^(52 - k)
   else s * 2^63 + (e + 896) * 2^52 + m * 2^29.
 
+(* the body is the text tools/gotrans/c03.go generates from Decoder.unmarshal (Gen/C03gen.v gen_ty), cases in source order *)
 Fixpoint dty (fuel : nat) (dep : N) (t : gty) (id : N) : dec tval :=
   match fuel with
   | O => NoFuel
@@ -535,69 +522,18 @@ Fixpoint dty (fuel : nat) (dep : N) (t : gty) (id : N) : dec tval :=
       | GMapAny => a <- dmap fuel dep id ;; Ret (XAny a)
       | _ =>
       if id =? idEnd then Fail eEND
-      else if id =? idByte then
-        v <- rd_i8 ;;
-        match t with
-        | GBool => Ret (XBool (negb (v =? 0)%Z))
-        | _ => if accepts id t then match int_bits t with Some sw => Ret (XInt (set_int sw v)) | None => Fail eType end
-               else Fail eType
-        end
-      else if id =? idShort then
-        v <- rd_i16 ;;
-        if accepts id t then match int_bits t with Some sw => Ret (XInt (set_int sw v)) | None => Fail eType end
-        else Fail eType
-      else if id =? idInt then
-        v <- rd_i32 ;;
-        if accepts id t then match int_bits t with Some sw => Ret (XInt (set_int sw v)) | None => Fail eType end
-        else Fail eType
-      else if id =? idLong then
-        v <- rd_i64 ;;
-        if accepts id t then match int_bits t with Some sw => Ret (XInt (set_int sw v)) | None => Fail eType end
-        else Fail eType
-      else if id =? idFloat then
-        v <- rd_i32 ;;
-        match t with GF32 => Ret (XF32 (u32 v)) | GF64 => Ret (XF64 (widen32 (u32 v))) | _ => Fail eType end   (* float64 target: float64(value) *)
-      else if id =? idDouble then
-        v <- rd_i64 ;;
-        match t with GF64 => Ret (XF64 (u64 v)) | _ => Fail eType end
-      else if id =? idString then
-        s <- rd_string ;;
-        match t with GStr => Ret (XStr s) | _ => Fail eType end
-      else if id =? idByteArray then
-        n <- rd_i32 ;;
-        if (n <? 0)%Z then Fail eNeg
-        else ReadFull (Z.to_N n) (fun bs =>
-          match t with
-          | GSl GU8 => Ret (XSlice (map (fun b => XInt (Z.of_N b)) bs))
-          | GSl GI8 => Ret (XSlice (map (fun b => XInt (sx8 b)) bs))
-          | GSl GBool => Ret (XSlice (map (fun b => XBool (negb (b =? 0))) bs))   (* fix 862b2b8 *)
-          | _ => Fail eType
-          end)
-      else if id =? idIntArray then
-        n <- rd_i32 ;;
-        if (n <? 0)%Z then Fail eNeg
-        else match t with
-             | GSl GInt | GSl GI32 => l <- rep f (Z.to_N n) rd_i32 [] ;; Ret (XSlice (map XInt l))
-             | GSl GU32 => l <- rep f (Z.to_N n) rd_i32 [] ;; Ret (XSlice (map (fun v => XInt (Z.of_N (u32 v))) l))   (* fix 13da9e2 *)
-             | _ => Fail eType
-             end
-      else if id =? idLongArray then
-        n <- rd_i32 ;;
-        if (n <? 0)%Z then Fail eNeg
-        else match t with
-             | GSl GI64 => l <- rep f (Z.to_N n) rd_i64 [] ;; Ret (XSlice (map XInt l))
-             | GSl GU64 => l <- rep f (Z.to_N n) rd_i64 [] ;; Ret (XSlice (map (fun v => XInt (Z.of_N (u64 v))) l))
-             | _ => Fail eType
-             end
-      else if id =? idList then
-        if dep =? 0 then Fail eDepth else
-        et <- rd_u8 ;; n <- rd_i32 ;;
-        if (n <? 0)%Z then Fail eNeg
-        else match t with
-             | GSl e => l <- rep f (Z.to_N n) (dty f (dep - 1) e et) [] ;; Ret (XSlice l)
-             | _ => Fail eType
-             end
-      else if id =? idCompound then Fail eType
+      else if id =? idByte then v <- rd_i8 ;; match t with | GBool => Ret (XBool (negb (v =? 0)%Z)) | GInt => Ret (XInt (sx 64 (wrapu 64 v))) | GI8 => Ret (XInt (sx 8 (wrapu 8 v))) | GI16 => Ret (XInt (sx 16 (wrapu 16 v))) | GI32 => Ret (XInt (sx 32 (wrapu 32 v))) | GI64 => Ret (XInt (sx 64 (wrapu 64 v))) | GUint => Ret (XInt (Z.of_N (wrapu 64 v))) | GU8 => Ret (XInt (Z.of_N (wrapu 8 v))) | GU16 => Ret (XInt (Z.of_N (wrapu 16 v))) | GU32 => Ret (XInt (Z.of_N (wrapu 32 v))) | GU64 => Ret (XInt (Z.of_N (wrapu 64 v))) | _ => Fail eType end
+      else if id =? idShort then v <- rd_i16 ;; match t with | GInt => Ret (XInt (sx 64 (wrapu 64 v))) | GI16 => Ret (XInt (sx 16 (wrapu 16 v))) | GI32 => Ret (XInt (sx 32 (wrapu 32 v))) | GI64 => Ret (XInt (sx 64 (wrapu 64 v))) | GUint => Ret (XInt (Z.of_N (wrapu 64 v))) | GU16 => Ret (XInt (Z.of_N (wrapu 16 v))) | GU32 => Ret (XInt (Z.of_N (wrapu 32 v))) | GU64 => Ret (XInt (Z.of_N (wrapu 64 v))) | _ => Fail eType end
+      else if id =? idInt then v <- rd_i32 ;; match t with | GInt => Ret (XInt (sx 64 (wrapu 64 v))) | GI32 => Ret (XInt (sx 32 (wrapu 32 v))) | GI64 => Ret (XInt (sx 64 (wrapu 64 v))) | GUint => Ret (XInt (Z.of_N (wrapu 64 v))) | GU32 => Ret (XInt (Z.of_N (wrapu 32 v))) | GU64 => Ret (XInt (Z.of_N (wrapu 64 v))) | _ => Fail eType end
+      else if id =? idFloat then v <- rd_i32 ;; match t with | GF32 => Ret (XF32 (u32 v)) | GF64 => Ret (XF64 (widen32 (u32 v))) | _ => Fail eType end
+      else if id =? idLong then v <- rd_i64 ;; match t with | GInt => Ret (XInt (sx 64 (wrapu 64 v))) | GI64 => Ret (XInt (sx 64 (wrapu 64 v))) | GUint => Ret (XInt (Z.of_N (wrapu 64 v))) | GU64 => Ret (XInt (Z.of_N (wrapu 64 v))) | _ => Fail eType end
+      else if id =? idDouble then v <- rd_i64 ;; match t with | GF64 => Ret (XF64 (u64 v)) | _ => Fail eType end
+      else if id =? idString then s <- rd_string ;; match t with | GStr => Ret (XStr s) | _ => Fail eType end
+      else if id =? idByteArray then n <- rd_i32 ;; if (n <? 0)%Z then Fail eNeg else ReadFull (Z.to_N n) (fun bs => match t with | GSl GBool => Ret (XSlice (map (fun b => XBool (negb (b =? 0))) bs)) | GSl GI8 => Ret (XSlice (map (fun b => XInt (sx8 b)) bs)) | GSl GU8 => Ret (XSlice (map (fun b => XInt (Z.of_N b)) bs)) | _ => Fail eType end)
+      else if id =? idIntArray then n <- rd_i32 ;; if (n <? 0)%Z then Fail eNeg else match t with | GSl GInt => l <- rep f (Z.to_N n) rd_i32 [] ;; Ret (XSlice (map XInt l)) | GSl GI32 => l <- rep f (Z.to_N n) rd_i32 [] ;; Ret (XSlice (map XInt l)) | GSl GU32 => l <- rep f (Z.to_N n) rd_i32 [] ;; Ret (XSlice (map (fun v => XInt (Z.of_N (u32 v))) l)) | _ => Fail eType end
+      else if id =? idLongArray then n <- rd_i32 ;; if (n <? 0)%Z then Fail eNeg else match t with | GSl GI64 => l <- rep f (Z.to_N n) rd_i64 [] ;; Ret (XSlice (map XInt l)) | GSl GU64 => l <- rep f (Z.to_N n) rd_i64 [] ;; Ret (XSlice (map (fun v => XInt (Z.of_N (u64 v))) l)) | _ => Fail eType end
+      else if id =? idList then if dep =? 0 then Fail eDepth else et <- rd_u8 ;; n <- rd_i32 ;; if (n <? 0)%Z then Fail eNeg else match t with | GSl e => l <- rep f (Z.to_N n) (dty f (dep - 1) e et) [] ;; Ret (XSlice l) | _ => Fail eType end
+      else if id =? idCompound then if dep =? 0 then Fail eDepth else Fail eType
       else Fail eUnknown
       end
   end.
